@@ -298,5 +298,6 @@ def expected_assign(tag, prop, v):
             return ('store', 'false' if v.lower() in ('false', '0') else 'true')
         return ('store', 'true' if v else 'false')
     if k == 'className':
-        return ('store', ' '.join(words(py_text(v))))
+        # assigning None to className means no class names (the documented repair of C09's 'None' class)
+        return ('store', ' '.join(words(py_text(v) if v is not None else '')))
     return ('store', py_text(v))
